@@ -85,3 +85,36 @@ Definition show_request (r : request) : list tok :=
   | RqDCMISensorInfo a b c d => [TN 11; TN a; TN b; TN c; TN d]
   | RqRaw b => [TN 12; TY b]
   end.
+
+(* ---------- procedures ---------- *)
+From BMC Require Import Proc.
+From Coq Require Import QArith.
+Local Close Scope Q_scope.
+Local Open Scope N_scope.
+
+Definition serve_chunks (chunks : list (option bytes)) (idx : N) : option bytes :=
+  match nth_error chunks (N.to_nat idx) with Some c => c | None => None end.
+
+(* a DCMI server from per-entity record-ID lists and a page size; [fail] = entities that answer with an error *)
+Definition serve_dcmi (tbl : list (N * list N)) (fail : list N) (page : nat) (entity start : N) : option (N * list N) :=
+  if existsb (N.eqb entity) fail then None else
+  match find (fun e => fst e =? entity) tbl with
+  | Some (_, ids) => Some (N.of_nat (length ids) mod 256, firstn page (skipn (N.to_nat start - 1) ids))
+  | None => Some (0, [])
+  end.
+
+(* an SDR repository server: records (id, full record bytes incl. header) in storage order *)
+Fixpoint sdr_lookup (recs : list (N * bytes)) (rec : N) (first : bool) : option (bytes * N) :=
+  match recs with
+  | [] => None
+  | (id, data) :: rest =>
+      if (first && (rec =? 0)) || (id =? rec) then
+        Some (data, match rest with (nid, _) :: _ => nid | [] => 0xffff end)
+      else sdr_lookup rest rec false
+  end.
+Definition serve_sdr (recs : list (N * bytes)) : sdr_server :=
+  fun res rec off len =>
+    match sdr_lookup recs rec true with
+    | Some (data, next) => Some (next, firstn (N.to_nat len) (skipn (N.to_nat off) data))
+    | None => None
+    end.
